@@ -1,13 +1,13 @@
 package c20
 
 import (
-	"os"
-	"strconv"
 	"crypto/sha256"
 	"fmt"
+	"os"
 	"reflect"
 	"runtime"
 	"sort"
+	"strconv"
 	"strings"
 	"sync"
 
